@@ -231,7 +231,7 @@ PROPS = {
         trusted=["zxcvbn-go's estimate (score, entropy, crack time) is a parameter of the model", T_CRYPTO],
     ),
     "C18": dict(
-        modules=["Whawty.Props.C18", "Whawty.Props.C18Reload"],
+        modules=["Whawty.Props.C18", "Whawty.Props.C18Reload", "Whawty.Props.GenArgon"],
         suites=[("hdrv", "c18"), ("overlay", "v18")],
         level_text="loader_exact: the model of fromConfig accepts exactly the well-formed decoded configurations; accepted "
                    "argon2id / scrypt sets lie inside the primitives' domains (repaired constructor). Generated YAML "
@@ -289,7 +289,7 @@ PROPS = {
         partial=["listener combinations (TLS, socket activation) of the running binary are not enumerated"],
     ),
     "C05": dict(
-        modules=["Whawty.Props.C05", "Whawty.Props.GenCodec", "Whawty.Props.GenScan"],
+        modules=["Whawty.Props.C05", "Whawty.Props.GenCodec", "Whawty.Props.GenScan", "Whawty.Props.GenCodecFn"],
         suites=[("hdrv+pam", "c05"), ("overlay4", "v10fd")],
         level_text="handleConnection is modelled as decode (the C13 scanner model) -> callback at most once -> one "
                    "clipped reply -> close; callback-at-most-once with exactly the decoded fields, positive-only-if, "
@@ -424,7 +424,7 @@ PROPS = {
         partial=["'on an otherwise idle agent the rewrite does happen' is observed with a 400 ms wait (scheduling), not proved"],
     ),
     "C13": dict(
-        modules=["Whawty.Props.C13", "Whawty.Props.GenCodec", "Whawty.Props.GenScan"],
+        modules=["Whawty.Props.C13", "Whawty.Props.GenCodec", "Whawty.Props.GenScan", "Whawty.Props.GenCodecFn"],
         level_text="Wire format, round trip, over-limit refusal, re-encode = consumed prefix, fragment "
                    "independence of the bufio.Scanner loop and PAM/Go encoder agreement are Lean theorems for all "
                    "byte strings and all fragmentations a reader that makes progress produces (induction over the scanner "
